@@ -600,6 +600,27 @@ pub fn run(tier: Tier) -> i32 {
     }
     bounds.insert("path_strings".into(), json!({"alphabet": PATH_TOKENS, "per_len": per}));
 
+    // (3b) number classes as head and path coordinates (precision, limits, notation)
+    let coords: Vec<&str> = NUMS
+        .iter()
+        .copied()
+        .chain([
+            "199.99999999", "-0.99999999", "100000.999", "131072.001", "131071.99999", "-131072", "131072.5", "16777217", "1e2", ".5", "5.",
+            "-0", "0.1e1", "1e-400", "99.5",
+        ])
+        .collect();
+    let nc = coords.len() as u64;
+    let a = par_range(nc * nc, |idx, acc| {
+        let (a, b) = (coords[(idx / nc) as usize], coords[(idx % nc) as usize]);
+        acc.states += 1;
+        check_line(&format!("100,200,1000,2,0,L|{a}:{b}|300:300,1,100"), &[0], &modes[..1], acc);
+        check_line(&format!("100,200,1000,2,0,B|150:150|{a}:{b},1,100"), &[0], &modes[1..], acc);
+        check_line(&format!("{a},{b},1000,2,0,P|150:150|300:300,1,100"), &[0], &modes[..1], acc);
+        check_line(&format!("{a},{b},1000,1,0"), &[0, 2], &modes[..1], acc);
+    });
+    acc = acc.merge(a);
+    bounds.insert("coordinate_classes".into(), json!({"values": coords.len(), "pairs": nc * nc, "shapes": 4}));
+
     // (4) node sound / bank lists against repeat counts
     let node_sounds = ["", "2", "2|4", "2|4|8", "2|4|8|14", "x|2", "|", "256|1"];
     let node_banks = ["", "1:2", "1:2|3:1", "1:2|3:1|0:0", "1:2|x", "1|2", "1:2:3:4|0:0", "0:0|0:0|0:0|2:2"];
@@ -622,7 +643,7 @@ pub fn run(tier: Tier) -> i32 {
                reference parser of the legacy grammar on accept/reject and on every field of the raw object (position truncation, \
                kind precedence, combo flag/offset, forced new combo, repeat count, node count, requested length, durations, control \
                points with types, samples). (1) 256 type bytes x 256 sound bytes; (2) baselines with <= 2/3 deviating fields from a \
-               33-value menu and all truncations; (3) all path token strings of <= 6/7 tokens over 14 tokens; (4) node lists x repeat \
+               33-value menu and all truncations; (3) all path token strings of <= 6/7 tokens over 14 tokens, every pair of 36 number classes as head and as path coordinates; (4) node lists x repeat \
                counts. states = lines, evaluations = (line, context, mode) runs; distinct_nontrivial = distinct accepted objects"
             .into(),
         bounds: Value::Object(bounds),
